@@ -101,6 +101,7 @@ pub struct CoreInner {
     pub steps: u64,
     pub hold_user: bool, // hold all user datagrams in flight (released by the scenario)
     pub epoch_ns: i64,   // start of the current scenario: logged times are relative to it
+    pub strip_domain_id: bool,   // rewrite PID_DOMAIN_ID into PID_PAD in every datagram sent (a peer that does not announce its domain id)
     pub drift_ns: i64,   // every clock read of the code under test advances the virtual time by this much (0 = frozen within a step)
 }
 
@@ -186,6 +187,7 @@ impl Core {
             steps: 0,
             hold_user: false,
             epoch_ns: START_SEC * NS,
+            strip_domain_id: false,
             drift_ns: 0,
         })))
     }
@@ -410,8 +412,22 @@ pub fn describe(bytes: &[u8]) -> (Vec<String>, Value) {
 impl WriteMessage for SimWriter {
     fn write_message(&self, buf: &[u8], locators: &[Locator]) {
         let (kinds, desc) = describe(buf);
-        let bytes = Arc::new(buf.to_vec());
         let mut c = self.core.lock();
+        let mut raw = buf.to_vec();
+        if c.strip_domain_id {
+            // a peer of another vendor / an older RTPS version that does not announce its domain id: PID_DOMAIN_ID (0x000f,
+            // length 4) of every parameter list becomes PID_PAD of the same length (little endian parameter lists)
+            let mut k = 0;
+            while k + 8 <= raw.len() {
+                if raw[k..k + 4] == [0x0f, 0x00, 0x04, 0x00] && k % 4 == 0 {
+                    raw[k] = 0x00;
+                    k += 8;
+                } else {
+                    k += 4;
+                }
+            }
+        }
+        let bytes = Arc::new(raw);
         let mut dests: Vec<(usize, bool)> = Vec::new();
         let my_domain = c.parts[self.k].domain;
         for loc in locators {
